@@ -53,10 +53,12 @@ def _band_calls(fns, tier):
     sample up to 1025 (thorough).  They follow the sweep in the same process, so the memo
     table already holds the small-s entries of the neighbouring n."""
     ns = list(range(250, 331 if tier == "quick" else 361))
+    # the largest first: a jump of several hundred units beyond anything the
+    # memo table holds (recursion depth), then the band in increasing order
     if tier == "thorough":
-        ns += [420, 421, 511, 512, 513, 600, 699, 700, 1023, 1025]
+        ns = [1025, 700, 1023] + ns + [420, 421, 511, 512, 513, 600, 699]
     else:
-        ns += [560, 700]
+        ns = [700, 560] + ns
     ops = []
     for n in ns:
         for k in (1, 2, 5):
